@@ -268,7 +268,7 @@ Theorem op_preserves_acyclic : forall s o s', WF (fst s) (snd s) -> guard_b s o 
 Proof.
   intros [h g] o [h' g'] W G AG AC E. simpl in W, AC |- *.
   destruct o as [ns|n|n m|n|old new|old new|p c|p c cl]; simpl run_op in E.
-  - inversion E; subst. simpl in G.
+  - injection E as Eh Eg. subst h' g'. simpl in G.
     intros r Hr x Rx [q [Hq Rq]].
     assert (L : forall y, In y g -> forall z, reach (h ++ ns) y z -> reach h y z /\ In z g).
     { intros y Hy z Rz. destruct (reach_local h (h ++ ns) (fun v => In v g)) with (a := y) (b := z); auto.
@@ -287,7 +287,8 @@ Proof.
   - eapply update_subtree_acyclic; eauto.
   - simpl in G, AG. apply andb_true_iff in G. destruct G as [G1 G2]. apply memb_In in G1. apply memb_In in G2.
     destruct (closure h p) as [R|e] eqn:EC; [|discriminate]. apply negb_true_iff in AG. apply memb_false in AG.
-    eapply connect_acyclic; eauto. intros X. apply AG. apply (closure_spec _ _ _ EC). exact X.
+    destruct (closure_spec _ _ _ EC) as [_ [_ [_ RS]]].
+    apply (connect_acyclic h g p c h' g' W G1 G2); auto. intros X. apply AG. apply RS. exact X.
   - simpl in G. apply andb_true_iff in G. destruct G as [G1 G2]. apply memb_In in G1. apply memb_In in G2.
-    eapply disconnect_acyclic; eauto.
+    apply (disconnect_acyclic h g p c cl h' g' W G1 G2 E AC).
 Qed.
